@@ -352,8 +352,11 @@ Proof.
 Qed.
 
 (* ------------------------------------------------------------------------------------------ get_nodes = den *)
+Section Fix.
+Variable F : fixes.
+
 Definition sub_res (v : varid) (ch : list (string * tree)) (pat' : list string) : list (string * (bool * res (list path))) :=
-  map (fun c : string * tree => let '(n, s) := c in (n, (is_circ s, get_nodes s v pat'))) ch.
+  map (fun c : string * tree => let '(n, s) := c in (n, (is_circ s, get_nodes_gen F s v pat'))) ch.
 Definition named (v : varid) (ch : list (string * tree)) (n : string) (isc : bool) (r : res (list path)) : res (list path) :=
   if isc then bind r (fun l => gnwv (Circ ch) v (add_new [] (map (cons n) l))) else gnwv (Circ ch) v [[n]].
 Definition all_step (acc : res (list path)) (x : string * (bool * res (list path))) : res (list path) :=
@@ -361,7 +364,7 @@ Definition all_step (acc : res (list path)) (x : string * (bool * res (list path
   bind acc (fun nodes => if isc then bind r (fun l => Ok (add_new nodes (map (cons n) l))) else Ok (nodes ++ [[n]])).
 
 Lemma get_nodes_circ : forall ch v pat,
-  get_nodes (Circ ch) v pat =
+  get_nodes_gen F (Circ ch) v pat =
   match pat with
   | [] => Err IndexError
   | [p] =>
@@ -374,22 +377,22 @@ Lemma get_nodes_circ : forall ch v pat,
   | p :: rest =>
       if String.eqb p all then bind (fold_left all_step (sub_res v ch rest) (Ok [])) (gnwv (Circ ch) v)
       else match assoc p (sub_res v ch rest) with
-           | None => Err KeyError
+           | None => if fix_D31 F then Ok [] else Err KeyError
            | Some (isc, r) => named v ch p isc r
            end
   end.
 Proof. intros. destruct pat as [|p [|r rest]]; reflexivity. Qed.
 
 Lemma assoc_sub_res : forall v ch pat' n,
-  assoc n (sub_res v ch pat') = option_map (fun s => (is_circ s, get_nodes s v pat')) (assoc n ch).
+  assoc n (sub_res v ch pat') = option_map (fun s => (is_circ s, get_nodes_gen F s v pat')) (assoc n ch).
 Proof.
   intros. unfold sub_res. induction ch as [|[k s] ch IH]; cbn; [reflexivity|].
   destruct (String.eqb n k); [reflexivity | apply IH].
 Qed.
 
-Lemma resolvable_all : forall ch, WF (Circ ch) -> resolvable (Circ ch) [all] = true.
+Lemma resolvable_all : forall ch, WF (Circ ch) -> resolvable_gen F (Circ ch) [all] = true.
 Proof.
-  intros ch W. destruct (WF_circ _ W) as [_ [NA _]]. unfold resolvable. cbn.
+  intros ch W. destruct (WF_circ _ W) as [_ [NA _]]. unfold resolvable_gen. cbn.
   apply assoc_None in NA. rewrite NA. reflexivity.
 Qed.
 
@@ -404,18 +407,18 @@ Proof.
   cbn [gnt]. rewrite (assoc_In _ _ _ NDn Hin). exact G.
 Qed.
 
-Theorem get_nodes_den : forall t v, WF t -> forall pat, resolvable t pat = true -> get_nodes t v pat = Ok (den t v pat).
+Theorem get_nodes_den : forall t v, WF t -> forall pat, resolvable_gen F t pat = true -> get_nodes_gen F t v pat = Ok (den t v pat).
 Proof.
   induction t as [nd|ch IH] using tree_ind'; intros v W pat R; [cbn in R; discriminate|].
   destruct (WF_circ _ W) as [ND [NA Wc0]]. rewrite Forall_forall in IH.
   assert (Wc : forall n s, In (n, s) ch -> WF s) by (intros n s Hin; apply (Wc0 _ Hin)).
-  assert (IH' : forall n s, In (n, s) ch -> forall pat, resolvable s pat = true -> get_nodes s v pat = Ok (den s v pat))
+  assert (IH' : forall n s, In (n, s) ch -> forall pat, resolvable_gen F s pat = true -> get_nodes_gen F s v pat = Ok (den s v pat))
     by (intros n s Hin; apply (IH _ Hin v (Wc0 _ Hin))).
   clear IH Wc0.
   rewrite get_nodes_circ. destruct pat as [|p [|r rest]].
   - cbn in R. discriminate.
   - (* one level left *)
-    unfold resolvable in R. cbn [chk] in R.
+    unfold resolvable_gen in R. cbn [chk] in R.
     destruct (mem p (map fst ch)) eqn:M.
     + apply mem_In in M. apply in_map_iff in M as [[n s] [E Hin]]. cbn in E. subst n.
       rewrite (assoc_In _ _ _ ND Hin) in R. destruct s as [nd|ch']; [|cbn in R; discriminate].
@@ -447,12 +450,12 @@ Proof.
         { apply String.eqb_neq. intro E. subst n. apply M. apply in_map_iff. exists (p, s). auto. }
         rewrite E1, E2. reflexivity.
   - (* at least two levels left *)
-    unfold resolvable in R. cbn [chk] in R. fold (resolvable) in R.
+    unfold resolvable_gen in R. cbn [chk] in R. 
     destruct (String.eqb p all) eqn:E1.
-    + (* wildcard level: every child is a resolvable circuit *)
+    + (* wildcard level: every child is a resolvable_gen F circuit *)
       rewrite forallb_forall in R.
       set (G := fun c : string * tree => map (cons (fst c)) (den (snd c) v (r :: rest))).
-      assert (F : forall l acc, incl l ch -> NoDup (acc ++ flat_map G l) ->
+      assert (FL : forall l acc, incl l ch -> NoDup (acc ++ flat_map G l) ->
                   fold_left all_step (sub_res v l (r :: rest)) (Ok acc) = Ok (acc ++ flat_map G l)).
       { induction l as [|[n s] l IHl]; intros acc Hi NDa; [cbn; rewrite app_nil_r; reflexivity|].
         assert (Hin : In (n, s) ch) by (apply Hi; left; reflexivity).
@@ -466,12 +469,18 @@ Proof.
       assert (EQ : flat_map G ch = den (Circ ch) v (p :: r :: rest)).
       { cbn [den]. apply flat_map_ext_in. intros [n s] Hin. rewrite E1. cbn [orb]. unfold G. cbn [fst snd].
         specialize (R _ Hin). cbn [snd] in R. destruct s as [nd|ch']; [cbn in R; discriminate | reflexivity]. }
-      assert (F0 := F ch [] (incl_refl _)). cbn [app] in F0. rewrite EQ in F0.
+      assert (F0 := FL ch [] (incl_refl _)). cbn [app] in F0. rewrite EQ in F0.
       unfold path in *. rewrite F0 by (apply den_NoDup; exact W).
       cbn [bind]. apply gnwv_id. intros q Hq. apply (den_gnt _ v W _ _ Hq).
     + (* named level *)
-      rewrite assoc_sub_res. rewrite (assoc_map (fun s => (is_circ s, chk false false false s (r :: rest)))) in R.
-      destruct (assoc p ch) as [s|] eqn:Ea; cbn [option_map] in *; [|discriminate].
+      rewrite assoc_sub_res. rewrite (assoc_map (fun s => (is_circ s, chk (fix_D31 F) false false s (r :: rest)))) in R.
+      destruct (assoc p ch) as [s|] eqn:Ea; cbn [option_map] in *.
+      2:{ (* proposed repair of D31: the level is missing and nothing is denoted *)
+          rewrite R. f_equal. cbn [den]. symmetry. apply flat_map_nil. intros [n s] Hin.
+          apply assoc_None in Ea.
+          assert (E2 : String.eqb p n = false).
+          { apply String.eqb_neq. intro E. subst n. apply Ea. apply in_map_iff. exists (p, s). auto. }
+          rewrite E1, E2. reflexivity. }
       apply assoc_Some_In in Ea. destruct s as [nd|ch']; cbn [is_circ] in *; [discriminate|].
       rewrite (IH' _ _ Ea (r :: rest) R).
       rewrite (named_circ ch v p ch' _ W Ea (den_NoDup _ v (Wc _ _ Ea) _) (fun q Hq => den_gnt _ v (Wc _ _ Ea) _ _ Hq)).
@@ -481,10 +490,10 @@ Proof.
         rewrite E1, E2. reflexivity.
 Qed.
 
-(* Core theorem of C06, first half: on every well-formed circuit tree and every resolvable pattern the recursion
-   of get_nodes returns exactly the denotation of the path. *)
-Theorem get_nodes_correct : forall t v pat, wfb t = true -> resolvable t pat = true ->
-  get_nodes t v pat = Ok (path_denotation t v pat).
+(* Core theorem of C06, first half: on every well-formed circuit tree and every resolvable_gen F pattern the recursion
+   of get_nodes_gen F returns exactly the denotation of the path. *)
+Theorem get_nodes_correct : forall t v pat, wfb t = true -> resolvable_gen F t pat = true ->
+  get_nodes_gen F t v pat = Ok (path_denotation t v pat).
 Proof.
   intros t v pat W R. rewrite <- den_spec; [apply get_nodes_den; assumption|].
   destruct t; [cbn in R; discriminate | reflexivity].
@@ -497,7 +506,7 @@ Proof.
   - rewrite <- den_spec by reflexivity. apply den_NoDup. assumption.
 Qed.
 
-Theorem get_nodes_NoDup : forall t v pat l, wfb t = true -> resolvable t pat = true -> get_nodes t v pat = Ok l -> NoDup l.
+Theorem get_nodes_NoDup : forall t v pat l, wfb t = true -> resolvable_gen F t pat = true -> get_nodes_gen F t v pat = Ok l -> NoDup l.
 Proof. intros t v pat l W R H. rewrite (get_nodes_correct t v pat W R) in H. inversion H. apply path_denotation_NoDup. exact W. Qed.
 
 (* every returned key is the address of a node of the tree that carries the variable *)
@@ -515,10 +524,10 @@ Proof.
 Qed.
 
 (* D31 and its relatives: outside the guard the recursion raises or reads the path leniently *)
-Theorem get_nodes_keyerror : forall ch v p r rest, String.eqb p all = false -> ~ In p (map fst ch) ->
-  get_nodes (Circ ch) v (p :: r :: rest) = Err KeyError.
+Theorem get_nodes_keyerror : forall ch v p r rest, fix_D31 F = false -> String.eqb p all = false -> ~ In p (map fst ch) ->
+  get_nodes_gen F (Circ ch) v (p :: r :: rest) = Err KeyError.
 Proof.
-  intros ch v p r rest E H. rewrite get_nodes_circ, E, assoc_sub_res. apply assoc_None in H. rewrite H. reflexivity.
+  intros ch v p r rest NF E H. rewrite get_nodes_circ, E, assoc_sub_res. apply assoc_None in H. rewrite H. cbn. rewrite NF. reflexivity.
 Qed.
 
 (* ------------------------------------------------------------------------------------------ declaration order *)
@@ -546,10 +555,10 @@ Inductive tperm : tree -> tree -> Prop :=
 
 Lemma tperm_leaves : forall t t', tperm t t' -> Permutation (leaves t) (leaves t').
 Proof.
-  fix IH 3. intros t t' H. destruct H as [nd|ch ch1 ch' F P].
+  fix IH 3. intros t t' H. destruct H as [nd|ch ch1 ch' FA P].
   - apply Permutation_refl.
   - eapply Permutation_trans; [|apply leaves_perm_top; exact P]. clear P.
-    cbn [leaves]. induction F as [|[n s] [n1 s1] l l1 [E T] F' IHF]; [constructor|].
+    cbn [leaves]. induction FA as [|[n s] [n1 s1] l l1 [E T] F' IHF]; [constructor|].
     cbn [flat_map fst snd] in *. subst n1. apply Permutation_app; [|exact IHF].
     apply Permutation_map. apply IH. exact T.
 Qed.
@@ -568,43 +577,50 @@ Definition entries_of (t : tree) (r : request) : list (string * entry) :=
   end.
 
 (* dict form: every key is resolved to the denotation of its path (one entry per key, in request order) *)
-Theorem positions_dict_spec : forall t reqs, wfb t = true -> reqs_resolvable t reqs = true -> all_found t reqs = true ->
-  positions_dict t reqs = Ok (flat_map (entries_of t) reqs).
+Theorem positions_dict_spec : forall t reqs, wfb t = true -> reqs_resolvable_gen F t reqs = true -> all_found t reqs = true ->
+  positions_dict_gen F t reqs = Ok (flat_map (entries_of t) reqs).
 Proof.
   intros t reqs W. induction reqs as [|[key [pat [o x]]] reqs IH]; intros R A; [reflexivity|].
-  unfold reqs_resolvable in R. cbn [forallb fst snd] in R. apply andb_true_iff in R as [R1 R2].
+  unfold reqs_resolvable_gen in R. cbn [forallb fst snd] in R. apply andb_true_iff in R as [R1 R2].
   unfold all_found in A. cbn [forallb] in A. apply andb_true_iff in A as [A1 A2].
-  cbn [positions_dict]. rewrite (get_nodes_correct t (Some (o, x)) pat W R1). cbn [bind].
+  cbn [positions_dict_gen]. rewrite (get_nodes_correct t (Some (o, x)) pat W R1). cbn [bind].
   cbn [flat_map entries_of].
   destruct (path_denotation t (Some (o, x)) pat) as [|n [|n' ns]]; [discriminate| |]; rewrite (IH R2 A2); reflexivity.
 Qed.
 
 (* fix D48: a key whose path denotes nothing is refused, not dropped *)
-Theorem positions_dict_missing : forall t key pat o x rest, wfb t = true -> resolvable t pat = true ->
-  path_denotation t (Some (o, x)) pat = [] -> positions_dict t ((key, (pat, (o, x))) :: rest) = Err PyRatesException.
+Theorem positions_dict_missing : forall t key pat o x rest, wfb t = true -> resolvable_gen F t pat = true ->
+  path_denotation t (Some (o, x)) pat = [] -> positions_dict_gen F t ((key, (pat, (o, x))) :: rest) = Err PyRatesException.
 Proof.
-  intros t key pat o x rest W R E. cbn [positions_dict]. rewrite (get_nodes_correct t (Some (o, x)) pat W R), E. reflexivity.
+  intros t key pat o x rest W R E. cbn [positions_dict_gen]. rewrite (get_nodes_correct t (Some (o, x)) pat W R), E. reflexivity.
 Qed.
 
 Lemma var_key_length : forall n o x, List.length (var_key n o x) = List.length n + 2.
 Proof. intros. unfold var_key. rewrite app_length. reflexivity. Qed.
 
+Lemma var_key_split : forall n o x,
+  firstn (List.length (var_key n o x) - 2) (var_key n o x) = n /\
+  nth (List.length (var_key n o x) - 2) (var_key n o x) "" = o /\ nth (List.length (var_key n o x) - 1) (var_key n o x) "" = x.
+Proof.
+  intros. rewrite var_key_length. replace (List.length n + 2 - 2) with (List.length n) by lia.
+  replace (List.length n + 2 - 1) with (S (List.length n)) by lia. unfold var_key. repeat split.
+  - rewrite firstn_app, Nat.sub_diag, firstn_all. cbn [firstn]. apply app_nil_r.
+  - rewrite app_nth2 by lia. rewrite Nat.sub_diag. reflexivity.
+  - rewrite app_nth2 by lia. replace (S (List.length n) - List.length n) with 1 by lia. reflexivity.
+Qed.
+
 (* the MultiIndex label built from a resolved variable key is (key, node levels..., "op/var") *)
 Theorem multi_label : forall (key : string) n o x,
   key :: firstn (List.length (var_key n o x) - 2) (var_key n o x) ++ [last2 (var_key n o x)] = key :: n ++ [opvar o x].
 Proof.
-  intros. f_equal. rewrite var_key_length. replace (List.length n + 2 - 2) with (List.length n) by lia.
-  unfold var_key. rewrite firstn_app, Nat.sub_diag, firstn_all. cbn [firstn]. rewrite app_nil_r. f_equal. f_equal.
-  unfold last2. rewrite app_length. cbn [List.length].
-  replace (List.length n + 2 - 2) with (List.length n) by lia. replace (List.length n + 2 - 1) with (S (List.length n)) by lia.
-  rewrite !app_nth2 by lia. rewrite Nat.sub_diag. replace (S (List.length n) - List.length n) with 1 by lia. reflexivity.
+  intros. destruct (var_key_split n o x) as [E1 [E2 E3]]. unfold last2. rewrite E1, E2, E3. reflexivity.
 Qed.
 
-(* on a fresh template the source of a variable is the vector of its representative and its own unit index *)
-Theorem source_of_fresh : forall L v vec i, tsvi L = [] -> source_of L v = Ok (vec, i) ->
-  passoc v (vidx L) = Some i /\ passoc (relabel L v) (f2b L) = Some vec /\ exists sl, assoc vec (svi L) = Some sl.
+(* on a fresh template the source of a variable is the vector of its representative and its own unit indices *)
+Theorem source_of_fresh : forall L v vec idxs, tsvi L = [] -> source_of L v = Ok (vec, idxs) ->
+  passoc v (vidx L) = Some idxs /\ passoc (relabel L v) (f2b L) = Some vec /\ exists sl, assoc vec (svi L) = Some sl.
 Proof.
-  intros L v vec i Hf H. unfold source_of, get_var_idx in H. rewrite Hf in H. cbn [assoc] in H.
+  intros L v vec idxs Hf H. unfold source_of, get_var_idx in H. rewrite Hf in H. cbn [assoc] in H.
   destruct (passoc v (vidx L)) as [j|]; [|discriminate]. cbn [bind] in H.
   destruct (passoc (relabel L v) (f2b L)) as [w|]; [|discriminate].
   destruct (assoc w (svi L)) as [sl|] eqn:E; [|discriminate]. inversion H; subst. eauto.
@@ -622,14 +638,237 @@ Proof.
   destruct row as [|a row]; cbn [skipn plus]; [destruct i; reflexivity | apply IH].
 Qed.
 
-(* outputs.pop(key)[:, idx] reads the state slot pos(var) *)
-Theorem column_value_slot {V} : forall (d : V) L row v src k, source_of L v = Ok src -> pos L v = Some k ->
-  column_value d L row src = nth_error row k.
+(* outputs.pop(key)[:, idx] reads the state slot pos(var, unit) *)
+Theorem column_value_slot {V} : forall (d : V) L row v vec idxs j i k, source_of L v = Ok (vec, idxs) ->
+  nth_error idxs j = Some i -> pos L v j = Some k -> column_value d L row (vec, i) = nth_error row k.
 Proof.
-  intros d L row v [vec i] k Hs Hp. unfold pos in Hp. rewrite Hs in Hp. unfold column_value. cbn [fst snd].
+  intros d L row v vec idxs j i k Hs Hj Hp. unfold pos in Hp. rewrite Hs, Hj in Hp. unfold column_value. cbn [fst snd].
   destruct (assoc vec (svi L)) as [[start len]|]; [|discriminate].
   destruct (Nat.ltb i len) eqn:E; [|discriminate]. inversion Hp; subst. apply Nat.ltb_lt in E.
   apply nth_error_slice. exact E.
+Qed.
+
+(* ---- composition: what run() returns ---- *)
+Definition the_src (L : layout) (v : path) : string * list nat := match source_of L v with Ok s => s | Err _ => ("", []) end.
+(* the backend source of unit j of variable v *)
+Definition col_of (L : layout) (c : label * (path * nat)) : label * (string * nat) :=
+  (fst c, (fst (the_src L (fst (snd c))), nth (snd (snd c)) (snd (the_src L (fst (snd c)))) 0)).
+Definition cr_lab (x : colreq) : label := fst (fst x).
+Definition cr_var (x : colreq) : path := snd (fst x).
+Definition cr_cols (U : list (path * nat)) (x : colreq) : list (label * (path * nat)) :=
+  unit_cols (cr_lab x) (cr_var x) (units U (cr_var x)).
+
+Lemma map_res_ok {A B} (f : A -> res B) (g : A -> B) : forall l, (forall a, In a l -> f a = Ok (g a)) -> map_res f l = Ok (map g l).
+Proof. induction l as [|a l IH]; cbn; intro H; [reflexivity|]. rewrite (H a), IH; cbn; auto. Qed.
+
+Lemma combine_map_self {A B} (g : A -> B) : forall l, combine l (map g l) = map (fun x => (x, g x)) l.
+Proof. induction l; cbn; congruence. Qed.
+
+Lemma expand_unit : forall L lab v vec idxs n, the_src L v = (vec, idxs) -> List.length idxs = n ->
+  expand_cols lab vec idxs = map (col_of L) (unit_cols lab v n).
+Proof.
+  intros L lab v vec idxs n Hs Hn. unfold unit_cols.
+  assert (C : forall c : label * (path * nat), fst (snd c) = v -> col_of L c = (fst c, (vec, nth (snd (snd c)) idxs 0))).
+  { intros c E. unfold col_of. rewrite E, Hs. reflexivity. }
+  destruct idxs as [|i [|i' r]].
+  - subst n. reflexivity.
+  - subst n. cbn. rewrite C by reflexivity. reflexivity.
+  - assert (E : Nat.eqb n 1 = false) by (apply Nat.eqb_neq; cbn in Hn; lia). rewrite E.
+    unfold expand_cols. rewrite Hn, map_map. apply map_ext. intro j. rewrite C by reflexivity. reflexivity.
+Qed.
+
+Lemma covers_src : forall L U vs v, covers L U vs = true -> In v vs ->
+  source_of L v = Ok (the_src L v) /\ List.length (snd (the_src L v)) = units U v.
+Proof.
+  intros L U vs v H Hin. unfold covers in H. rewrite forallb_forall in H. specialize (H v Hin). unfold the_src.
+  destruct (source_of L v) as [[vec idxs]|]; [|discriminate]. apply Nat.eqb_eq in H. auto.
+Qed.
+
+(* from the resolved requests to the DataFrame *)
+Lemma finish_ok : forall L U lv, lv <> [] -> covers L U (map cr_var lv) = true ->
+  (forall x, In x lv -> snd x = false -> units U (cr_var x) = 1) ->
+  finish L false lv = Ok (map (col_of L) (flat_map (cr_cols U) lv)).
+Proof.
+  intros L U lv NE C NP. unfold finish.
+  rewrite (map_res_ok _ (fun x => the_src L (cr_var x))).
+  2:{ intros x Hx. apply (proj1 (covers_src L U _ (cr_var x) C (in_map cr_var _ _ Hx))). }
+  cbn [bind]. destruct lv as [|x0 lv0] eqn:Elv; [congruence|]. rewrite <- Elv in *. clear NE.
+  unfold build_cols. rewrite combine_map_self, map_map, map_flat_map.
+  apply seq_concat_ok. intros [[lab v] ex] Hx.
+  destruct (covers_src L U _ v C) as [_ HL]; [apply (in_map cr_var _ _ Hx)|].
+  unfold cr_var, cr_cols, cr_lab in *. cbn [fst snd] in *.
+  destruct (the_src L v) as [vec idxs] eqn:Es. cbn [snd] in HL.
+  destruct ex.
+  - f_equal. apply (expand_unit L lab v vec idxs _ Es HL).
+  - specialize (NP _ Hx eq_refl). cbn [fst snd] in NP. rewrite NP in *.
+    destruct idxs as [|i [|i' r]]; cbn in HL; try lia. f_equal.
+    unfold cr_var. cbn [fst snd]. rewrite NP. rewrite <- (expand_unit L lab v vec [i] 1 Es eq_refl). reflexivity.
+Qed.
+
+Lemma flat_map_cons' {A B} (f : A -> list B) a l : flat_map f (a :: l) = f a ++ flat_map f l.
+Proof. reflexivity. Qed.
+
+(* the dict form's column requests written directly in terms of the denotations *)
+Definition dict_lv (t : tree) (reqs : list request) : list colreq :=
+  flat_map (fun r => let '(key, (pat, (o, x))) := r in
+              match path_denotation t (Some (o, x)) pat with
+              | [] => []
+              | [n] => [([key], var_key n o x, true)]
+              | ns => map (fun n => (key :: n ++ [opvar o x], var_key n o x, false)) ns
+              end) reqs.
+
+Lemma dict_colreqs_lv : forall t reqs, dict_colreqs (flat_map (entries_of t) reqs) = dict_lv t reqs.
+Proof.
+  intros t reqs. unfold dict_colreqs, dict_lv. induction reqs as [|[key [pat [o x]]] reqs IH]; [reflexivity|].
+  rewrite !flat_map_cons', flat_map_app, IH. f_equal.
+  cbn [entries_of]. destruct (path_denotation t (Some (o, x)) pat) as [|n [|n' ns]]; [reflexivity|reflexivity|].
+  cbn [flat_map snd fst]. rewrite app_nil_r, map_map. apply map_ext. intro m. rewrite multi_label. reflexivity.
+Qed.
+
+Lemma multi_vars_wild : forall t reqs, multi_vars (flat_map (entries_of t) reqs) = wild_vars t reqs.
+Proof.
+  intros t reqs. unfold multi_vars, wild_vars. induction reqs as [|[key [pat [o x]]] reqs IH]; [reflexivity|].
+  rewrite !flat_map_cons', flat_map_app, IH. f_equal.
+  cbn [entries_of]. destruct (path_denotation t (Some (o, x)) pat) as [|n [|n' ns]]; cbn; try reflexivity.
+  rewrite app_nil_r. reflexivity.
+Qed.
+
+Lemma dict_lv_spec : forall t U reqs, flat_map (cr_cols U) (dict_lv t reqs) = spec_columns t U DictForm reqs.
+Proof.
+  intros t U reqs. unfold dict_lv, spec_columns. induction reqs as [|[key [pat [o x]]] reqs IH]; [reflexivity|].
+  rewrite !flat_map_cons', flat_map_app. f_equal; [|exact IH].
+  destruct (path_denotation t (Some (o, x)) pat) as [|n [|n' ns]]; [reflexivity| |].
+  - cbn. rewrite app_nil_r. reflexivity.
+  - rewrite flat_map_concat_map, map_map, <- flat_map_concat_map. reflexivity.
+Qed.
+
+Lemma dict_lv_vars : forall t reqs, map cr_var (dict_lv t reqs) = requested t DictForm reqs.
+Proof.
+  intros t reqs. unfold dict_lv, requested. induction reqs as [|[key [pat [o x]]] reqs IH]; [reflexivity|].
+  rewrite !flat_map_cons', map_app. f_equal; [|exact IH].
+  destruct (path_denotation t (Some (o, x)) pat) as [|n [|n' ns]]; [reflexivity|reflexivity|].
+  rewrite map_map. reflexivity.
+Qed.
+
+Lemma dict_lv_wild : forall t reqs x, In x (dict_lv t reqs) -> snd x = false -> In (cr_var x) (wild_vars t reqs).
+Proof.
+  intros t reqs x H E. unfold dict_lv in H. apply in_flat_map in H as [[key [pat [o y]]] [Hr H]].
+  unfold wild_vars. apply in_flat_map. exists (key, (pat, (o, y))). split; [exact Hr|].
+  destruct (path_denotation t (Some (o, y)) pat) as [|n [|n' ns]]; [contradiction| |].
+  - destruct H as [H|[]]. subst x. discriminate.
+  - apply in_map_iff in H as [m [Hm Hin]]. subst x. unfold cr_var. cbn [fst snd]. apply (in_map (fun n0 => var_key n0 o y)). exact Hin.
+Qed.
+
+Lemma dict_lv_nonempty : forall t reqs, reqs <> [] -> all_found t reqs = true -> dict_lv t reqs <> [].
+Proof.
+  intros t [|[key [pat [o x]]] reqs] NE A; [congruence|]. unfold all_found in A. cbn [forallb] in A.
+  apply andb_true_iff in A as [A _]. unfold dict_lv. cbn [flat_map].
+  destruct (path_denotation t (Some (o, x)) pat) as [|n [|n' ns]]; [discriminate| |]; cbn; discriminate.
+Qed.
+
+(* list form *)
+Lemma positions_list_spec : forall t L reqs acc, wfb t = true -> reqs_resolvable_gen F t reqs = true -> all_found t reqs = true ->
+  positions_list_gen F t L false reqs acc =
+  Ok (fold_left (fun acc r => let '(_, (pat, (o, x))) := r in
+                   add_new acc (map (fun n => var_key n o x) (path_denotation t (Some (o, x)) pat))) reqs acc).
+Proof.
+  intros t L reqs. induction reqs as [|[key [pat [o x]]] reqs IH]; intros acc W R A; [reflexivity|].
+  unfold reqs_resolvable_gen in R. cbn [forallb fst snd] in R. apply andb_true_iff in R as [R1 R2].
+  unfold all_found in A. cbn [forallb] in A. apply andb_true_iff in A as [A1 A2].
+  cbn [positions_list_gen fold_left]. fold (var_key pat o x). destruct (var_key_split pat o x) as [E1 [E2 E3]].
+  rewrite E1, E2, E3. rewrite (get_nodes_correct t (Some (o, x)) pat W R1). cbn [bind].
+  destruct (path_denotation t (Some (o, x)) pat) as [|n ns] eqn:E; [discriminate|].
+  unfold upd_keys. apply IH; assumption.
+Qed.
+
+Lemma add_new_grows : forall new acc, exists l, add_new acc new = acc ++ l /\ (acc = [] -> new <> [] -> l <> []).
+Proof.
+  unfold add_new. induction new as [|k new IH]; intros acc.
+  - exists []. split; [symmetry; apply app_nil_r | congruence].
+  - cbn [fold_left]. destruct (pmem k acc) eqn:E.
+    + destruct (IH acc) as [l [H1 H2]]. exists l. split; [exact H1|]. intros Ea _. subst acc. discriminate.
+    + destruct (IH (acc ++ [k])) as [l [H1 _]]. exists (k :: l). split; [rewrite H1, <- app_assoc; reflexivity | discriminate].
+Qed.
+
+Lemma requested_list_nonempty : forall t reqs, reqs <> [] -> all_found t reqs = true -> requested t ListForm reqs <> [].
+Proof.
+  intros t [|[key [pat [o x]]] reqs] NE A; [congruence|]. unfold all_found in A. cbn [forallb] in A.
+  apply andb_true_iff in A as [A _]. unfold requested. cbn [fold_left].
+  destruct (path_denotation t (Some (o, x)) pat) as [|n ns] eqn:E; [discriminate|].
+  destruct (add_new_grows (map (fun n0 => var_key n0 o x) (n :: ns)) []) as [l [H1 H2]]. cbn [app] in H1. rewrite H1.
+  assert (Hl : l <> []) by (apply H2; [reflexivity | discriminate]).
+  assert (G : forall (rs : list request) (a : list path), a <> [] ->
+            fold_left (fun acc r => let '(_, (pat, (o, x))) := r in
+                         add_new acc (map (fun n => var_key n o x) (path_denotation t (Some (o, x)) pat))) rs a <> []).
+  { induction rs as [|[k' [p' [o' x']]] rs IHr]; intros a Ha; [exact Ha|]. cbn [fold_left]. apply IHr.
+    destruct (add_new_grows (map (fun n0 => var_key n0 o' x') (path_denotation t (Some (o', x')) p')) a) as [l' [H' _]].
+    rewrite H'. destruct a; [congruence | discriminate]. }
+  apply G. exact Hl.
+Qed.
+
+(* What run() returns (C06, second half).  For every circuit tree, every layout left by apply(), every set of
+   requests in dict form (single-variable keys, wildcard keys, several keys) or list form, under the stated guards:
+   the DataFrame has exactly the columns of the specification, in its order, and the column labelled l is read from
+   the backend source of the unit that l names (col_of); column_value_slot turns that source into state slot pos. *)
+Theorem run_columns_spec : forall t L U f reqs, f <> ListFormOld ->
+  wfb t = true -> reqs_resolvable_gen F t reqs = true -> all_found t reqs = true -> reqs <> [] ->
+  (f = DictForm -> (fix_overlap F = false -> no_overlap t reqs = true) /\ no_pop_in_wildcard t U reqs = true) ->
+  covers L U (requested t f reqs) = true ->
+  run_columns_gen F t L f reqs = Ok (map (col_of L) (spec_columns t U f reqs)).
+Proof.
+  intros t L U f reqs NF W R A NE G C. destruct f; [| |congruence].
+  - destruct (G eq_refl) as [NO NP]. unfold run_columns_gen. rewrite (positions_dict_spec t reqs W R A). cbn [bind].
+    rewrite dict_colreqs_lv, multi_vars_wild.
+    assert (OV : negb (fix_overlap F) && negb (dupfree (wild_vars t reqs)) = false).
+    { destruct (fix_overlap F) eqn:EF; [reflexivity|]. cbn. unfold no_overlap in NO. rewrite (NO eq_refl). reflexivity. }
+    rewrite OV.
+    rewrite <- dict_lv_spec. apply finish_ok.
+    + apply dict_lv_nonempty; assumption.
+    + rewrite dict_lv_vars. exact C.
+    + intros x Hx Ex. unfold no_pop_in_wildcard in NP. rewrite forallb_forall in NP.
+      apply Nat.eqb_eq. apply NP. apply dict_lv_wild; assumption.
+  - unfold run_columns_gen. rewrite (positions_list_spec t L reqs [] W R A). cbn [bind].
+    fold (requested t ListForm reqs). unfold spec_columns. fold (requested t ListForm reqs).
+    set (vs := requested t ListForm reqs) in *.
+    rewrite (finish_ok L U (map (fun v => ([join "/" v], v, true)) vs)).
+    + f_equal. f_equal. rewrite flat_map_concat_map, map_map, <- flat_map_concat_map. reflexivity.
+    + intro E. apply map_eq_nil in E. revert E. apply requested_list_nonempty; assumption.
+    + rewrite map_map. unfold cr_var. cbn [fst snd]. rewrite map_id. exact C.
+    + intros x Hx Ex. apply in_map_iff in Hx as [v [Ev _]]. subst x. discriminate.
+Qed.
+
+(* ... and with an injective index map (C04's theorem, here a hypothesis) two different requested units are read
+   from two different state slots: a column cannot carry another unit's trajectory *)
+Theorem distinct_units_distinct_slots : forall L,
+  (forall v j v' j' k, pos L v j = Some k -> pos L v' j' = Some k -> v = v' /\ j = j') ->
+  forall v j v' j' k k', pos L v j = Some k -> pos L v' j' = Some k' -> (v, j) <> (v', j') -> k <> k'.
+Proof.
+  intros L Inj v j v' j' k k' H1 H2 NE E. subst k'. destruct (Inj _ _ _ _ _ H1 H2). subst. congruence.
+Qed.
+
+End Fix.
+
+(* the code as it is *)
+Theorem run_columns_spec_asis : forall t L U f reqs, f <> ListFormOld ->
+  wfb t = true -> reqs_resolvable t reqs = true -> all_found t reqs = true -> reqs <> [] ->
+  (f = DictForm -> no_overlap t reqs = true /\ no_pop_in_wildcard t U reqs = true) ->
+  covers L U (requested t f reqs) = true ->
+  run_columns t L f reqs = Ok (map (col_of L) (spec_columns t U f reqs)).
+Proof.
+  intros t L U f reqs NF W R A NE G C. apply (run_columns_spec nofix); try assumption.
+  intro E. destruct (G E). split; auto.
+Qed.
+
+(* the code with both proposed repairs: the guards names_resolve (D31) and no_overlap are not needed any more *)
+Definition bothfixes : fixes := {| fix_D31 := true; fix_overlap := true |}.
+Theorem run_columns_spec_repaired : forall t L U f reqs, f <> ListFormOld ->
+  wfb t = true -> reqs_resolvable_gen bothfixes t reqs = true -> all_found t reqs = true -> reqs <> [] ->
+  (f = DictForm -> no_pop_in_wildcard t U reqs = true) ->
+  covers L U (requested t f reqs) = true ->
+  run_columns_gen bothfixes t L f reqs = Ok (map (col_of L) (spec_columns t U f reqs)).
+Proof.
+  intros t L U f reqs NF W R A NE G C. apply (run_columns_spec bothfixes); try assumption.
+  intro E. split; [intro X; discriminate X | auto].
 Qed.
 
 (* ------------------------------------------------------------------------------------------ witnesses *)
@@ -640,7 +879,7 @@ Definition two_branches : tree :=
 (* what apply(vectorize=True) leaves behind for flat3: B and C merged into A's vector *)
 Definition L3 : layout :=
   {| labels := [(["B"; "op"], ["A"; "op"]); (["B"], ["A"]); (["C"; "op"], ["A"; "op"]); (["C"], ["A"])];
-     vidx := [(["A"; "op"; "x"], 0); (["B"; "op"; "x"], 1); (["C"; "op"; "x"], 2)];
+     vidx := [(["A"; "op"; "x"], [0]); (["B"; "op"; "x"], [1]); (["C"; "op"; "x"], [2])];
      f2b := [(["A"; "op"; "x"], "x")]; svi := [("x", (0, 3))]; tsvi := [] |}.
 Definition ox : string * string := ("op", "x").
 
@@ -673,21 +912,21 @@ Qed.
 Lemma list_old_refuted :
   run_columns flat3 L3 ListFormOld [("", (["B"], ox))] = Ok [(["A/op/x"], ("x", 0))] /\
   run_columns flat3 L3 ListForm [("", (["B"], ox))] = Ok [(["B/op/x"], ("x", 1))] /\
-  spec_columns flat3 ListForm [("", (["B"], ox))] = [(["B/op/x"], ["B"; "op"; "x"])] /\
-  pos L3 ["B"; "op"; "x"] = Some 1.
+  spec_columns flat3 [] ListForm [("", (["B"], ox))] = [(["B/op/x"], (["B"; "op"; "x"], 0))] /\
+  pos L3 ["B"; "op"; "x"] 0 = Some 1.
 Proof. vm_compute. repeat split. Qed.
 
 (* regression for D43 (repaired): a plain key next to a wildcard key keeps its label *)
 Lemma plain_key_regression :
   map fst (match run_columns flat3 L3 DictForm [("ab", (["B"], ox)); ("a", (["all"], ox))] with Ok l => l | Err _ => [] end) =
-  map fst (spec_columns flat3 DictForm [("ab", (["B"], ox)); ("a", (["all"], ox))]) /\
+  map fst (spec_columns flat3 [] DictForm [("ab", (["B"], ox)); ("a", (["all"], ox))]) /\
   run_columns flat3 L3 DictForm [("ab", (["B"], ox)); ("a", (["all"], ox))] =
     Ok [(["ab"], ("x", 1)); (["a"; "A"; "op/x"], ("x", 0)); (["a"; "B"; "op/x"], ("x", 1)); (["a"; "C"; "op/x"], ("x", 2))].
 Proof. vm_compute. repeat split. Qed.
 
 Lemma overlap_refuted :
   run_columns flat3 L3 DictForm [("a", (["all"], ox)); ("b", (["all"], ox))] = Err KeyError /\
-  List.length (spec_columns flat3 DictForm [("a", (["all"], ox)); ("b", (["all"], ox))]) = 6 /\
+  List.length (spec_columns flat3 [] DictForm [("a", (["all"], ox)); ("b", (["all"], ox))]) = 6 /\
   no_overlap flat3 [("a", (["all"], ox)); ("b", (["all"], ox))] = false.
 Proof. vm_compute. repeat split. Qed.
 
@@ -696,12 +935,12 @@ Definition stale_tree : tree :=
   Circ [("U0", Leaf [("ou", ["u"; "k"])]); ("U1", Leaf [("ou", ["u"; "k"])]); ("U2", Leaf [("ou", ["u"; "k"])]);
         ("N0", Leaf opn); ("N1", Leaf opn); ("N2", Leaf opn); ("N3", Leaf opn); ("N4", Leaf opn)].
 Definition L_stale (stale : bool) : layout :=
-  {| labels := []; vidx := [(["N1"; "op"; "x"], 1); (["N4"; "op"; "x"], 4)];
+  {| labels := []; vidx := [(["N1"; "op"; "x"], [1]); (["N4"; "op"; "x"], [4])];
      f2b := [(["N1"; "op"; "x"], "x"); (["N4"; "op"; "x"], "x")]; svi := [("u", (0, 3)); ("x", (3, 5))];
      tsvi := if stale then [("u", Some (0, 3)); ("x", Some (3, 5))] else [] |}.
 Lemma stale_indices_refuted :
-  source_of (L_stale true) ["N1"; "op"; "x"] = Ok ("x", 4) /\ source_of (L_stale false) ["N1"; "op"; "x"] = Ok ("x", 1) /\
-  source_of (L_stale false) ["N4"; "op"; "x"] = Ok ("x", 4).
+  source_of (L_stale true) ["N1"; "op"; "x"] = Ok ("x", [4]) /\ source_of (L_stale false) ["N1"; "op"; "x"] = Ok ("x", [1]) /\
+  source_of (L_stale false) ["N4"; "op"; "x"] = Ok ("x", [4]).
 Proof. vm_compute. repeat split. Qed.
 
 (* non-vacuity: a depth-2 tree, wildcard in the middle, the guard holds and two nodes are denoted *)
@@ -711,4 +950,38 @@ Definition nv_tree : tree :=
 Lemma nonvacuous : wfb nv_tree = true /\ resolvable nv_tree ["all"; "A"] = true /\
   get_nodes nv_tree (Some ox) ["all"; "A"] = Ok [["c1"; "A"]; ["c2"; "A"]] /\
   get_nodes nv_tree (Some ox) ["all"] = Ok [["c1"; "A"]; ["c2"; "B"]; ["c2"; "A"]].
+Proof. vm_compute. repeat split. Qed.
+
+(* populations: A, B scalar nodes merged into one vector, P a PopulationTemplate of 3 units *)
+Definition pop_tree : tree := Circ [("A", Leaf opn); ("B", Leaf opn); ("P", Leaf opn)].
+Definition L_pop : layout :=
+  {| labels := [(["B"; "op"], ["A"; "op"]); (["B"], ["A"])];
+     vidx := [(["A"; "op"; "x"], [0]); (["B"; "op"; "x"], [1]); (["P"; "op"; "x"], [0; 1; 2])];
+     f2b := [(["A"; "op"; "x"], "x"); (["P"; "op"; "x"], "x_v1")]; svi := [("x", (0, 2)); ("x_v1", (2, 3))]; tsvi := [] |}.
+Definition U_pop : list (path * nat) := [(["P"], 3)].
+Lemma population_columns :
+  run_columns pop_tree L_pop DictForm [("p", (["P"], ox)); ("a", (["B"], ox))] =
+    Ok [(["p"; "0"], ("x_v1", 0)); (["p"; "1"], ("x_v1", 1)); (["p"; "2"], ("x_v1", 2)); (["a"], ("x", 1))] /\
+  spec_columns pop_tree U_pop DictForm [("p", (["P"], ox)); ("a", (["B"], ox))] =
+    [(["p"; "0"], (["P"; "op"; "x"], 0)); (["p"; "1"], (["P"; "op"; "x"], 1)); (["p"; "2"], (["P"; "op"; "x"], 2));
+     (["a"], (["B"; "op"; "x"], 0))] /\
+  pos L_pop ["P"; "op"; "x"] 2 = Some 4 /\
+  run_columns pop_tree L_pop ListForm [("", (["all"], ox))] =
+    Ok [(["A/op/x"], ("x", 0)); (["B/op/x"], ("x", 1)); (["P/op/x"; "0"], ("x_v1", 0)); (["P/op/x"; "1"], ("x_v1", 1));
+        (["P/op/x"; "2"], ("x_v1", 2))].
+Proof. vm_compute. repeat split. Qed.
+
+(* a population among the variables of a dict-form wildcard key: ValueError (2-D array among 1-D ones) *)
+Lemma population_in_wildcard_refuted :
+  run_columns pop_tree L_pop DictForm [("w", (["all"], ox))] = Err ValueError /\
+  List.length (spec_columns pop_tree U_pop DictForm [("w", (["all"], ox))]) = 5 /\
+  no_pop_in_wildcard pop_tree U_pop [("w", (["all"], ox))] = false.
+Proof. vm_compute. repeat split. Qed.
+
+(* non-vacuity of run_columns_spec: all its hypotheses hold on a request with a population, a wildcard and a plain key *)
+Lemma run_returns_nonvacuous :
+  let reqs := [("p", (["P"], ox)); ("a", (["B"], ox))] in
+  wfb pop_tree = true /\ reqs_resolvable pop_tree reqs = true /\ all_found pop_tree reqs = true /\
+  no_overlap pop_tree reqs = true /\ no_pop_in_wildcard pop_tree U_pop reqs = true /\
+  covers L_pop U_pop (requested pop_tree DictForm reqs) = true.
 Proof. vm_compute. repeat split. Qed.
